@@ -1,8 +1,23 @@
 """hand-made mutants for C10 (remote iterators / stream table); applied to a scratch export of /repo by tools/mutants.py
 
 No "fix:" commit of /repo touches the stream code, so there is no revert mutant here.
-Results (quick tier, and repo test-suite where run with --tests) are listed in the final report of the check builder and in
-the comment at the end of this file.
+
+All 22 are CAUGHT by `tools/mutants.py c10:` (quick tier = committed replays + Hypothesis search).  Checked separately with the
+replay tier switched off: the search alone finds every one of them too (in brackets: of the 16 quick shards, how many reported the
+most frequent signature of that mutant - a lower bound for the number of shards that caught it):
+  keep_after_exception [16]  keep_after_stop [16]  linger_ts_never_set [16]  linger_expires_at_once [12]  lifetime_uses_linger_setting [11]
+  linger_uses_lifetime_setting [11]  next_uses_latest_stream [13]  disconnect_lingers_all [15]  disconnect_drops_all [16]
+  close_stream_noop [16]  reassoc_lost [12]  hk_linger_hits_live [12]  register_when_streaming_off [15]  client_skips_after_reconnect [14]
+  reassoc_keeps_linger_ts [6]  reassoc_restarts_lifetime [4]  lifetime_boundary_inclusive [6]  linger_boundary_inclusive [11]
+  registered_without_owner [16]  server_skips_on_resume [16]  lifetime_from_last_use [9]  client_close_diverged_noop [9; found through the
+  20 s close-delivery ceiling, it is a "nothing arrives" defect]
+Repo test-suite on each mutant (449 tests): GREEN for
+  keep_after_exception, keep_after_stop, lifetime_uses_linger_setting, next_uses_latest_stream, disconnect_lingers_all,
+  disconnect_drops_all, close_stream_noop, register_when_streaming_off, client_skips_after_reconnect, reassoc_keeps_linger_ts,
+  reassoc_restarts_lifetime, lifetime_boundary_inclusive, linger_boundary_inclusive, registered_without_owner,
+  server_skips_on_resume, lifetime_from_last_use, client_close_diverged_noop
+RED (testGeneratorLinger of the thread and/or multiplex server classes; hk_linger_hits_live also test_echoserver testGenerator) for
+  linger_ts_never_set, linger_expires_at_once, linger_uses_lifetime_setting, reassoc_lost, hk_linger_hits_live
 """
 from tools.mutant_defs import M
 
